@@ -7,7 +7,7 @@ ASSUMPTIONS = ['libm functions are uninterpreted (same argument, same result); s
                'operands at which the result is not differentiable or not defined (v = 0 for division, |x| >= 1 for asin/acos, equal operands of min/max, abs(0)) are excluded by assumption']
 
 ENTRIES = ['h_const','h_var','h_assign_scalar','h_copy','h_add_ee','h_add_es','h_add_se','h_addeq_ee','h_addeq_es','h_sub_ee','h_sub_es','h_sub_se','h_subeq_ee','h_subeq_es','h_neg',
-           'h_mul_ee','h_mul_es','h_mul_se','h_muleq_ee','h_muleq_es','h_div_ee','h_div_es','h_div_se','h_diveq_ee','h_diveq_es','h_cmp','h_abs','h_min_ee','h_max_ee','h_min_se','h_max_se',
+           'h_mul_ee','h_mul_es','h_mul_se','h_muleq_ee','h_muleq_es','h_div_ee','h_div_es','h_div_se','h_diveq_ee','h_diveq_es','h_self_mul','h_self_div','h_self_add','h_self_sub','h_cmp','h_abs','h_min_ee','h_max_ee','h_min_se','h_max_se',
            'h_sin','h_cos','h_tan','h_sinh','h_cosh','h_exp','h_atan','h_log','h_log10','h_sqrt','h_asin','h_acos','h_asinh','h_acosh','h_atan2_ee','h_atan2_es','h_pow_es','h_pow_se','h_pow_ee']
 
 def jobs(tier):
